@@ -454,6 +454,53 @@ func c01(c *Ctx) {
 
 	// ---- R01.F ----------------------------------------------------------------------------------
 	c01Presence(c, pp, tr, "R01.F")
+	// the presence patterns a value may have are the schema's: two fields the schema puts on different bits and the
+	// Go tags on one form a group the encoder writes together - a value with one of them set (legal by the schema)
+	// cannot be serialised (= the tag part of R02.L, filed under C01)
+	r.Rule("R01.L", "per registered struct with conditional fields: every field's flag bit, its encoded_in_bitflags mark and its conditionality are the ones of its schema line, so the presence patterns the codec can carry are exactly the schema's", 100)
+	if api, mt, err := c.Schemas(); err != nil {
+		r.Undecide("R01.L", "schema", "", err.Error())
+	} else {
+		for _, sch := range []struct {
+			si  *schemaInfo
+			pkg string
+			tag string
+		}{{api, load.TgPkg, "api"}, {mt, load.ObjPkg, "mtproto"}} {
+			tm := &typeMatcher{c: c, pp: pp, sch: sch.si}
+			for _, d := range sch.si.S.Defs {
+				if !d.HasID {
+					continue
+				}
+				for _, m := range pp.ByCRC[d.ID] {
+					if m.Pkg != sch.pkg || m.IsEnum || m.Struct == nil || m.Marshaler || m.Unmarshaler {
+						continue
+					}
+					cond := false
+					for _, f := range m.Fields {
+						if f.Tag.HasFlag || f.Tag.Err != "" {
+							cond = true
+						}
+					}
+					for _, q := range d.Params {
+						if q.Cond {
+							cond = true
+						}
+					}
+					if !cond {
+						continue
+					}
+					diffs, _ := tm.compareFields(d, m)
+					var td []string
+					for _, x := range diffs {
+						if strings.Contains(x, "Go tag") || strings.Contains(x, "tag error") || strings.Contains(x, "encoded_in_bitflags") || strings.Contains(x, "conditional") {
+							td = append(td, x)
+						}
+					}
+					r.Check(len(td) == 0, "R01.L", "presence:"+sch.tag+"."+d.Name, c.pos(m.Pos), m.Name+": "+strings.Join(td, "; "))
+				}
+			}
+		}
+	}
 
 	// ---- R01.W ----------------------------------------------------------------------------------
 	for _, t := range []struct {
